@@ -236,7 +236,13 @@ class Sched:
                 elif sig == SIGINT:
                     raise KeyboardInterrupt
                 continue
-            h(sig, None)
+            # the handler runs on top of whatever the thread was blocked in: while it runs the thread is runnable
+            saved = (me.wait_pred, me.deadline, me.wait_desc)
+            me.wait_pred, me.deadline, me.wait_desc = None, None, 'in signal handler'
+            try:
+                h(sig, None)
+            finally:
+                me.wait_pred, me.deadline, me.wait_desc = saved
 
     def kill_proc(self, p):
         p.killed = True
